@@ -136,6 +136,10 @@ func (e *Env) Start(c *Call, f func(ctx context.Context) (*pool.Message, error),
 			}
 			ri = Snapshot(resp)
 			if e.Pool.Enabled {
+				// the application keeps the response for two more phases before it releases it
+				e.Pool.CheckHandover(ri, "response of "+c.Name)
+				<-e.NextPhase()
+				<-e.NextPhase()
 				e.Pool.CheckHeld(resp, ri)
 				e.Pool.Unhold(resp)
 			}
@@ -219,5 +223,39 @@ func (p *PoolTracker) CheckHeld(m *pool.Message, snap *RespInfo) {
 	}
 	if now.Code == byte(poisonCode) && now.MID == poisonMID {
 		p.env.Violate("C12.R5", "poison-handed-over", "poisoned (released) message content handed to the application: %s", now)
+	}
+}
+
+// CheckHandover verifies that what is handed to the application is not the poisoned content of a released message (C12.R5).
+func (p *PoolTracker) CheckHandover(snap *RespInfo, what string) {
+	if !p.Enabled || snap == nil {
+		return
+	}
+	if snap.Code == byte(poisonCode) && snap.MID == poisonMID {
+		p.env.Violate("C12.R5", "poison-handed-over", "%s carries the poison of a released message: %s", what, snap)
+	}
+}
+
+// HoldWhile marks m as held by the application for the duration of f and checks that it did not change meanwhile.
+func (p *PoolTracker) HoldWhile(m *pool.Message, who string, f func()) {
+	if !p.Enabled || m == nil {
+		f()
+		return
+	}
+	p.Hold(m, who)
+	snap := Snapshot(m)
+	p.CheckHandover(snap, who)
+	f()
+	p.CheckHeld(m, snap)
+	p.Unhold(m)
+}
+
+// CheckWire verifies that a message seen on the wire is not the poisoned content of a released message (C12.R5).
+func (p *PoolTracker) CheckWire(m *WMsg) {
+	if !p.Enabled || m == nil {
+		return
+	}
+	if m.Code == byte(poisonCode) && (m.MID == uint16(poisonMID) || len(m.Token) == 0) {
+		p.env.Violate("C12.R5", "poison-on-the-wire", "a message with the poison of a released pooled message was put on the wire: %s", m)
 	}
 }
